@@ -3041,6 +3041,9 @@ same arguments.
                 self.opts.postTag = []
             self.opts.postTag += ['current']
 
+        # as setup does: "-t None" and the default tags are dealt with before the VRO is first selected
+        eups.Eups._processDefaultTags(self.opts)
+
         if True:
             myeups = self.createEups(self.opts)
         else:
@@ -3051,8 +3054,6 @@ same arguments.
 
             myeups = eups.Eups(readCache=True, force=self.opts.force, setupType=setupType,
                                exact_version=self.opts.exact_version)
-
-        myeups._processDefaultTags(self.opts)
 
         isUserTag = False
         if self.opts.tag:
